@@ -252,3 +252,36 @@ Qed.
 
 Lemma rl_iterate_spec s l r : RWF s l -> rl_iterate s = Ok r -> r = l.
 Proof. intros [Hs _ _ _] H. unfold rl_iterate in H. eapply rl_walk_rseg; eauto. Qed.
+
+(* ------------------------------------------------------------------ the iteration fuel of the model is sufficient *)
+
+Lemma rl_walk_ok s p h l fuel :
+  rseg (rprev s) (rnext s) p h l 0 -> (length l <= fuel)%nat -> rl_walk fuel h s = Ok l.
+Proof.
+  revert p h fuel. induction l as [|a t IH]; intros p h fuel Hs Hf.
+  - cbn in Hs. subst h. destruct fuel; reflexivity.
+  - cbn in Hs. destruct Hs as [-> [Hz [Hp Hs]]]. destruct fuel as [|f]; [cbn in Hf; lia|].
+    cbn [rl_walk]. apply N.eqb_neq in Hz. rewrite Hz. rewrite (IH a (mget (rnext s) a) f Hs); [reflexivity|cbn in Hf; lia].
+Qed.
+
+Lemma mget_nonzero_key m k : mget m k <> 0 -> In k (map fst m).
+Proof.
+  unfold mget. induction m as [|[k0 v0] t IH]; cbn; [congruence|]. destruct (k0 =? k) eqn:E.
+  - apply N.eqb_eq in E. auto.
+  - intros H. right. apply IH. exact H.
+Qed.
+
+Lemma rl_iterate_ok s l : RWF s l -> rl_iterate s = Ok l.
+Proof.
+  intros [Hseg Htail Hnd Hout]. unfold rl_iterate. eapply rl_walk_ok; eauto.
+  destruct (snoc_case l) as [->|[l' [x ->]]]; [cbn; lia|].
+  rewrite app_length. cbn [length].
+  assert (Hl : (length l' <= length (map fst (rnext s)))%nat).
+  { apply NoDup_incl_length; [apply nodup_app_l in Hnd; auto|].
+    intros a Ha. apply mget_nonzero_key. apply in_split in Ha as [l1 [l2 ->]].
+    rewrite <- app_assoc in Hseg. cbn [app] in Hseg.
+    destruct (rseg_split_at _ _ _ _ _ _ _ _ Hseg) as [_ [_ [_ H2]]].
+    destruct (l2 ++ [x]) as [|y t] eqn:E; [destruct l2; discriminate|].
+    destruct (rseg_head_next _ _ _ _ _ _ _ H2) as [Ey Hy]. congruence. }
+  rewrite map_length in Hl. lia.
+Qed.
